@@ -63,11 +63,26 @@ func numEq(a, b x.Val) bool {
 }
 
 // refEq: '=' between two non-NULL values under the column's comparison type / collation.
+// fold: case- and accent-insensitive canonical form for the small generated alphabet (written independently of the
+// engine's collation tables): lower case, then the base letter of each accented letter.
+var accentBase = map[rune]rune{'é': 'e', 'è': 'e', 'ê': 'e', 'ë': 'e', 'á': 'a', 'à': 'a', 'ä': 'a', 'ü': 'u', 'ö': 'o', 'ñ': 'n'}
+
+func fold(s string) string {
+	var sb strings.Builder
+	for _, r := range strings.ToLower(s) {
+		if b, ok := accentBase[r]; ok {
+			r = b
+		}
+		sb.WriteRune(r)
+	}
+	return sb.String()
+}
+
 func refEq(coll string, a, b x.Val) bool {
 	switch {
 	case a.K == "str" && b.K == "str":
 		if ci(coll) {
-			return strings.ToLower(a.B) == strings.ToLower(b.B)
+			return fold(a.B) == fold(b.B)
 		}
 		return a.B == b.B
 	case a.K != "str" && b.K != "str":
@@ -84,7 +99,9 @@ func pairKind(a, b x.Val) string {
 	case (a.K == "int") != (b.K == "int") && a.K != "str" && b.K != "str":
 		return "int-vs-decimal"
 	case a.K == "str" && b.K == "str" && a.B != b.B && strings.EqualFold(a.B, b.B):
-		return "string-case"
+		return "collation-variant"
+	case a.K == "str" && b.K == "str" && a.B != b.B && fold(a.B) == fold(b.B):
+		return "collation-variant"
 	}
 	return "same-representation"
 }
@@ -174,7 +191,21 @@ func hv(v x.Val) string {
 	case "dec":
 		return fmt.Sprintf("(HDec %s %d)", lib.CoqZ(v.I), v.S)
 	}
-	return "(HStr " + lib.CoqStr(v.B) + ")"
+	return "(HStr " + coqRunes(v.B) + ")"
+}
+
+// strings are modelled as code-point sequences (their UTF-8 encoding is an injective homomorphism, so key equality is
+// the same on bytes and on code points); invalid UTF-8 is not generated.
+func coqRunes(b string) string {
+	rs := []rune(b)
+	if len(rs) == 0 {
+		return "[]"
+	}
+	parts := make([]string, len(rs))
+	for i, r := range rs {
+		parts[i] = fmt.Sprintf("%d", r)
+	}
+	return "[" + strings.Join(parts, ";") + "]"
 }
 
 func hvs(vs []x.Val) string { return lib.CoqListOf(vs, hv) }
@@ -182,8 +213,8 @@ func hvs(vs []x.Val) string { return lib.CoqListOf(vs, hv) }
 // ---------- pools ----------
 
 var intPool = []int64{-12, -1, 0, 1, 2, 10, 12, 100, 1000000, -9223372036854775808, 9223372036854775807}
-var strPoolCI = []string{"a", "A", "b", "B", "ab", "AB", "Ab", "aB", "", "abc", "z", "Z"}
-var strPoolBin = []string{"a", "A", "b", "ab", "AB", "", "a ", "a\x00", "\x00b", "a,", ",b", "abc"}
+var strPoolCI = []string{"a", "A", "b", "B", "ab", "AB", "Ab", "aB", "", "abc", "e", "é", "E", "É", "re", "ré", "Ré"}
+var strPoolBin = []string{"a", "A", "b", "ab", "AB", "", "a ", "a\x00", "\x00b", "a,", ",b", "abc", "e", "é"}
 
 func genDec(r *lib.RNG, scales []int) x.Val {
 	s := lib.Pick(r, scales)
@@ -229,6 +260,9 @@ func variant(r *lib.RNG, coll string, v x.Val) x.Val {
 		case 1:
 			return x.Str(strings.ToUpper(v.B))
 		case 2:
+			if r.Bool() {
+				return x.Str(strings.NewReplacer("e", "é", "é", "e", "E", "É", "É", "E").Replace(v.B))
+			}
 			return x.Str(strings.ToLower(v.B))
 		default:
 			if ci(coll) {
@@ -341,13 +375,18 @@ func runPair(c *lib.Ctx, r *lib.RNG, cs pairCase) {
 			}
 			continue
 		}
-		if !refEq(cs.Coll, a, b) {
+		// hash.HashOf can only know a collation through the schema: without one the API contract is bytewise equality
+		coll := "bin"
+		if cs.Schema[i] {
+			coll = cs.Coll
+		}
+		if !refEq(coll, a, b) {
 			allEq = false
 		} else if k := pairKind(a, b); k != "same-representation" {
-			if k == "string-case" && cs.Schema[i] {
+			if k == "collation-variant" && cs.Schema[i] {
 				// weight strings are hashed: not a reason for different hashes
 				if kind == "same-representation" {
-					kind = "string-case-with-schema"
+					kind = k + "-with-schema"
 				}
 			} else {
 				kind = k
@@ -361,7 +400,11 @@ func runPair(c *lib.Ctx, r *lib.RNG, cs pairCase) {
 			kind = "nul-in-raw-string"
 			for i := range cs.R1 {
 				if cs.R1[i].K != "str" || !strings.Contains(cs.R1[i].B+cs.R2[i].B, "\x00") {
-					if cs.R1[i].K != "null" && cs.R2[i].K != "null" && !refEq(cs.Coll, cs.R1[i], cs.R2[i]) {
+					cl := "bin"
+					if cs.Schema[i] {
+						cl = cs.Coll
+					}
+					if cs.R1[i].K != "null" && cs.R2[i].K != "null" && !refEq(cl, cs.R1[i], cs.R2[i]) {
 						kind = "other"
 					}
 				}
@@ -422,6 +465,7 @@ var colDefs = map[string][2]string{
 	"dec-same":       {"DECIMAL(10,2)", "DECIMAL(10,2)"},
 	"dec-mixed":      {"DECIMAL(10,2)", "DECIMAL(12,4)"},
 	"int-dec":        {"INT", "DECIMAL(10,2)"},
+	"dec-big":        {"DECIMAL(22,2)", "DECIMAL(22,2)"},
 	"str-bin":        {"VARCHAR(20)", "VARCHAR(20)"},
 	"str-ai-ci":      {"VARCHAR(20) COLLATE utf8mb4_0900_ai_ci", "VARCHAR(20) COLLATE utf8mb4_0900_ai_ci"},
 	"str-general-ci": {"VARCHAR(20) COLLATE utf8mb4_general_ci", "VARCHAR(20) COLLATE utf8mb4_general_ci"},
@@ -440,7 +484,7 @@ func collOf(col string) string {
 var engStrBin = []string{"a", "A", "b", "ab", "AB", "", "a ", "abc"}
 
 func genEng(r *lib.RNG) engCase {
-	c := engCase{Kind: "eng", Col: lib.Pick(r, []string{"int", "dec-same", "dec-mixed", "dec-mixed", "int-dec", "str-bin", "str-ai-ci", "str-ai-ci", "str-general-ci"})}
+	c := engCase{Kind: "eng", Col: lib.Pick(r, []string{"int", "dec-same", "dec-mixed", "dec-mixed", "int-dec", "dec-big", "str-bin", "str-ai-ci", "str-ai-ci", "str-general-ci"})}
 	n := r.Range(3, 7)
 	one := func(side int) x.Val {
 		if r.Chance(1, 7) {
@@ -451,6 +495,9 @@ func genEng(r *lib.RNG) engCase {
 			return x.Int(lib.Pick(r, []int64{-1, 0, 1, 2, 10, 12}))
 		case "dec-same":
 			return genDec(r, []int{2})
+		case "dec-big":
+			// differ only beyond float64 precision
+			return x.Dec(lib.Pick(r, []int64{1234567890123456788, 1234567890123456789, 1234567890123456790, 1234567890123456700, -1234567890123456789, 100}), 2)
 		case "dec-mixed":
 			if side == 0 {
 				return genDec(r, []int{2})
@@ -473,7 +520,10 @@ func genEng(r *lib.RNG) engCase {
 	}
 	if strings.HasPrefix(c.Col, "str") {
 		pool := []string{"a", "a,", ",b", "b", "", ","}
-		for i := 0; i < 4; i++ {
+		if c.Col == "str-bin" {
+			pool = []string{"a", "a,", ",b", "b", "a\x00", "\x00b", "ab"}
+		}
+		for i := 0; i < 5; i++ {
 			c.P = append(c.P, []x.Val{x.Str(lib.Pick(r, pool)), x.Str(lib.Pick(r, pool))})
 		}
 	}
@@ -712,9 +762,101 @@ func runEng(c *lib.Ctx, v *engEnv, cs engCase) {
 					fmt.Sprintf("COUNT(DISTINCT s, u) over %v (%s): engine %d, number of distinct pairs by '=' %d", cs.P, defs[0], got, len(cl)), cs)
 			}
 		}
+		// two-column rows through DISTINCT / GROUP BY / UNION / EXCEPT / INTERSECT (row keys with the NUL separator)
+		pairEq := func(a, b []x.Val) bool { return refEq(coll, a[0], b[0]) && refEq(coll, a[1], b[1]) }
+		pclasses := func(rows [][]x.Val) [][]x.Val {
+			var cl [][]x.Val
+		outer2:
+			for _, r := range rows {
+				for _, q := range cl {
+					if pairEq(q, r) {
+						continue outer2
+					}
+				}
+				cl = append(cl, r)
+			}
+			return cl
+		}
+		inRows := func(r []x.Val, rows [][]x.Val) bool {
+			for _, q := range rows {
+				if pairEq(q, r) {
+					return true
+				}
+			}
+			return false
+		}
+		h := len(cs.P) / 2
+		L, R := cs.P[:h], cs.P[h:]
+		nBoth, nOnlyL := 0, 0
+		for _, q := range pclasses(L) {
+			if inRows(q, R) {
+				nBoth++
+			} else {
+				nOnlyL++
+			}
+		}
+		lq := fmt.Sprintf("SELECT s, u FROM %s WHERE id < %d", p, h)
+		rq := fmt.Sprintf("SELECT s, u FROM %s WHERE id >= %d", p, h)
+		var flat []x.Val
+		hasNul := false
+		for _, r := range cs.P {
+			flat = append(flat, r...)
+			if strings.Contains(r[0].B+r[1].B, "\x00") {
+				hasNul = true
+			}
+		}
+		rowsCoq := make([]string, len(cs.P))
+		for i, r := range cs.P {
+			rowsCoq[i] = hvs(r)
+		}
+		type chk2 struct {
+			op, sql string
+			want   int
+			model  string
+		}
+		for _, k := range []chk2{
+			{"distinct-two-columns", "SELECT COUNT(*) FROM (SELECT DISTINCT s, u FROM " + p + ") q", len(pclasses(cs.P)), "[]"},
+			{"group-by-two-columns", "SELECT COUNT(*) FROM (SELECT s, u FROM " + p + " GROUP BY s, u) q", len(pclasses(cs.P)), "[CStr; CStr]"},
+			{"union-two-columns", "SELECT COUNT(*) FROM (" + lq + " UNION " + rq + ") q", len(pclasses(cs.P)), "[]"},
+			{"except-two-columns", "SELECT COUNT(*) FROM (" + lq + " EXCEPT " + rq + ") q", nOnlyL, ""},
+			{"intersect-two-columns", "SELECT COUNT(*) FROM (" + lq + " INTERSECT " + rq + ") q", nBoth, ""},
+		} {
+			got, err := count1(s.Query(k.sql))
+			if err != nil {
+				c.Count("eng:error:" + k.op)
+				continue
+			}
+			var id int
+			if k.model != "" {
+				id = c.Case("(DedupRowsCase "+cib+" "+k.model+" "+lib.CoqList(rowsCoq)+" "+fmt.Sprint(got)+")", cs, "")
+			} else {
+				id = c.CaseNoModel(cs, "")
+			}
+			c.PredChecked()
+			if got != k.want {
+				kind := splitKinds(coll, flat)
+				if hasNul && (got < k.want || k.op == "except-two-columns" || k.op == "intersect-two-columns") {
+					if kind == "no-variant-pairs" {
+						kind = "nul-in-string"
+					} else {
+						kind = "nul-in-string+" + kind
+					}
+				}
+				c.PredFail(id, k.op+"/mismatch/"+kind,
+					fmt.Sprintf("%s over rows %s (%s): engine count %d, number by '=' on both columns %d; query: %s", k.op, pairsText(cs.P), defs[0], got, k.want, k.sql), cs)
+			}
+		}
 		s.MustExec("DROP TABLE " + p)
 	}
 	s.MustExec("DROP TABLE " + t)
+}
+
+func pairsText(ps [][]x.Val) string {
+	parts := make([]string, len(ps))
+	for i, r := range ps {
+		parts[i] = "(" + r[0].SQL() + "," + r[1].SQL() + ")"
+	}
+	return strings.Join(parts, " ")
 }
 
 // ---------- corpus ----------
@@ -738,6 +880,11 @@ func corpus() (ps []pairCase, es []engCase) {
 		{Kind: "eng", Col: "str-bin", X: []x.Val{x.Str("a"), x.Str("A"), x.Str("a ")}, Y: []x.Val{x.Str("a"), x.Str("b"), x.Str("")},
 			P: [][]x.Val{{x.Str("a,"), x.Str("b")}, {x.Str("a"), x.Str(",b")}}},
 		{Kind: "eng", Col: "int", X: []x.Val{x.Int(1), x.Int(1), x.Int(2)}, Y: []x.Val{x.Int(2), x.Int(3), x.Null()}},
+		{Kind: "eng", Col: "str-ai-ci", X: []x.Val{x.Str("e"), x.Str("é"), x.Str("E"), x.Str("f")}, Y: []x.Val{x.Str("é"), x.Str("x"), x.Null(), x.Null()}},
+		{Kind: "eng", Col: "str-general-ci", X: []x.Val{x.Str("e"), x.Str("é"), x.Str("f")}, Y: []x.Val{x.Str("É"), x.Str("x"), x.Null()}},
+		{Kind: "eng", Col: "str-bin", X: []x.Val{x.Str("e"), x.Str("é")}, Y: []x.Val{x.Str("é"), x.Str("x")},
+			P: [][]x.Val{{x.Str("a\x00"), x.Str("b")}, {x.Str("a"), x.Str("b")}, {x.Str("a"), x.Str("\x00b")}, {x.Str("ab"), x.Str("b")}}},
+		{Kind: "eng", Col: "dec-big", X: []x.Val{d(1234567890123456788, 2), d(1234567890123456789, 2)}, Y: []x.Val{d(1234567890123456789, 2), d(100, 2)}},
 		{Kind: "eng", Col: "dec-same", X: []x.Val{d(100, 2), d(100, 2), d(-150, 2)}, Y: []x.Val{d(100, 2), d(0, 2), x.Null()}},
 	}
 	return
